@@ -259,6 +259,7 @@ _C03_STAGES = [
     {"variant": "vg", "workload": "C03-sessions", "args_quick": ["--scale", "0.05"], "args_thorough": ["--scale", "0.05"], "canary": ["heap-write-past-end", "Invalid write"], "tiers": ["thorough"]},
     {"variant": "vg", "workload": "C03-components", "args_quick": ["--scale", "0.1"], "args_thorough": ["--scale", "0.1"], "tiers": ["thorough"]},
     {"custom": "fuzz_c03", "seconds": 150, "tiers": ["thorough"]},
+    {"custom": "unsafe_coverage", "tiers": ["thorough"]},
 ]
 PLANS["C03"] = {
     "level": "exploration",
